@@ -474,6 +474,17 @@ theorem set_later_get (cfg : Cfg α) (rw : Registry α) (st : SStore α) (k : By
   have hs : (st.set cfg rw k v).lookup k = some w := by simp [SStore.set, he, SStore.lookup]
   simp only [SStore.get, hl, hs, hd]
 
+/-- **"storing the value" is storing the content of the moment**: the caller hands `set` its own (mutable) object `r`;
+whatever it does to its objects afterwards (`later`: assignments to `r` itself included — the world is then the pair of the
+heap `h.run later` and the store), `get` yields the content `r` had when it was written — not `(h.run later) r`.  In the model this holds by construction (the store holds values, `setRef`
+reads the heap once); that the code has this shape — `Memory._set` keeps a `copy()` even when a serializer is configured,
+because the NonPickler and the NullSigner hand the caller's object through — is what the harness checks by mutating its
+own objects after every write and comparing with an independent snapshot. -/
+theorem set_then_caller_mutations_get (cfg : Cfg α) (rw rr : Registry α) (st : SStore α) (h : Heap α) (k : Bytes) (r : Nat)
+    (later : List (Nat × Val α)) (hrt : RoundTrips cfg rw rr k (h r)) :
+    ((h.run later, st.setRef cfg rw h k r) : Heap α × SStore α).2.get cfg rr k = .value (h r) :=
+  set_get cfg rw rr st k (h r) hrt
+
 /-! ### non-vacuity: a concrete configuration that satisfies every hypothesis, evaluated -/
 
 /-- toy pickler: `obj n ↦ [0x80, n]` -/
@@ -623,5 +634,9 @@ example : encode (clsCfg none) (toyReg.register kNested.qual nCodec) [0x6b] (.ob
 -- two classes named `S`: the later registration serves both
 example : customEncode (clsCfg none) ((toyReg.registerClass kNested nCodec).registerClass kNested2 { nCodec with enc := fun _ => [0x21] })
     (.obj 7) = some [0x53, 0x3a, 0x21] := by decide
+
+-- the caller changes its object after the write: the heap says `8`, the store still answers `7`
+example : Heap.run (fun _ => Val.obj 7 : Heap Nat) [(0, Val.obj 8)] 0 = Val.obj 8 := by decide
+example : (SStore.setRef (toyCfg none) toyReg [] (fun _ => Val.obj 7) [0x6b] 0).get (toyCfg none) toyReg [0x6b] = .value (.obj 7) := by decide
 
 end CashewsVerif.Props.C09
